@@ -107,9 +107,9 @@ func macroAlphabet() []token {
 		// Centered space
 		{glue(0, 1, 0), pen(0, 0, false), glue(1, -1, 0), box(0), pen(0, inf, false), glue(0, 1, 0)},
 		// Left/Right soft hyphen
-		{pen(0, inf, false), glue(0, 1, 0), pen(1, 10 * text.HyphenPenalty, true), glue(0, -1, 0)},
+		{pen(0, inf, false), glue(0, 1, 0), pen(1, 10*text.HyphenPenalty, true), glue(0, -1, 0)},
 		// Justified space, Justified soft hyphen, break after '-', CJK break
-		{glue(1, 0.5, 1.0 / 3.0)},
+		{glue(1, 0.5, 1.0/3.0)},
 		{pen(1, text.HyphenPenalty, true)},
 		{pen(0, text.HyphenPenalty, true)},
 		{pen(0, 0, false)},
@@ -576,18 +576,23 @@ func families(tier string) []fw.Family {
 	if tier == "thorough" {
 		n, m, d, g = 6, 5, 8, 7
 	}
+	_ = g
 	fs := []fw.Family{
 		seqFamily("base-alphabet+finish", baseAlphabet(), n),
 		seqFamily("alignment-macros+finish", macroAlphabet(), m),
 		seqFamily("reduced-alphabet-long+finish", reducedAlphabet(), d),
 		withTunables(seqFamily("reduced-alphabet-long+finish", reducedAlphabet(), d-1), tunables{1, 1, 10000, 10000}),
 		withTunables(seqFamily("reduced-alphabet-long+finish", reducedAlphabet(), d-1), tunables{3, 10, 3000, 300}),
-		wordFamily(d-1),
+		wordFamily(d - 1),
 		withTunables(wordFamily(d-2), tunables{1, 1, 10000, 10000}),
-		gapFamily(g),
-		withTunables(gapFamily(g), tunables{0.5, 10, 100, 100}),
-		unterminatedFamily(baseAlphabet(), 4),
+		gapFamily(6),
 	}
+	if tier == "thorough" {
+		fs = append(fs, withTunables(gapFamily(g), tunables{0.5, 10, 100, 100}))
+	}
+	fs = append(fs,
+		unterminatedFamily(baseAlphabet(), 4),
+	)
 	// development aid: C17_ONLY=<substring> restricts the run to the matching families
 	if only := os.Getenv("C17_ONLY"); only != "" {
 		var sel []fw.Family
